@@ -121,6 +121,15 @@ transaction reads its own state -/
 example : readerSees true ((script []).take 12) 7 kC = some (some [3], some [3]) ∧
     readerSees true ((script []).take 12) 7 kB = some (some [2], some [2]) := by decide
 
+/-- the window the comment in `prepare_sync` calls safe: a transaction begun AFTER `block_until_zero` returned and BEFORE
+the staged changeset is taken lives through the whole sync (pages 2 is written, the index swapped) and still reads its
+state; the NEXT sync does not start while it lives -/
+example :
+    let steps : List (Step Nat) := (script []).take 7 ++ [.begin 9, .take,
+      .write 2 (.leaf [(kB, .inl [2]), (kC, .inl [3])]), .finish [(kA, 2)] [1] 3, .commit [(kC, some [4])]]
+    readerSees true steps 9 kB = some (some [2], some [2]) ∧ readerSees true steps 9 kC = some (some [3], some [3]) ∧
+    finalLookup true steps kC = some (some [4]) ∧ refused true (steps ++ [.gate]) = true := by decide
+
 /-- **T15.counter-protocol is needed** (kernel-checked): the same steps with the read transaction still alive.  With
 the code's `block_until_zero` (`g = true`) the third sync does not start (the `gate` step is refused).  With the wait
 skipped (`g = false`) every step is permitted, sync 3 reuses page 1 — freed by sync 2 while transaction 7, begun during
